@@ -803,3 +803,45 @@ def ref_cache_programs(rng, flavour, n):
         prog += [{"op": "write", "fl": pick_fl(rng, flavour), "key": kx(key + "2"), "data": data.hex(), "algo": min(algos, key=STRENGTH.index)},
                  {"op": "read", "fl": "sync", "key": kx(key)}, {"op": "refcheck", "key": kx(key + "2")}]
         yield prog
+
+
+def rot_programs(rng, flavour, n):
+    """C01 / C18: an entry is retrieved successfully through a checked entry point, THEN its content file rots in place
+    (same inode, same length, same timestamps: a flipped bit, or the bytes of another entry of the same length), then it
+    is retrieved again in the same process through every checked entry point: verification must be repeated each time."""
+    for _ in range(n):
+        ln = rng.choice([1, 5, 64, 300, 5000, 70000])
+        d1, d2 = rand_bytes(rng, ln), rand_bytes(rng, ln)
+        if d1 == d2: d2 = bytes([d2[0] ^ 1]) + d2[1:]
+        algo = rng.choice(hashes.ALGOS)
+        k1, k2 = "rot-one", "rot-two"
+        prog = [{"op": "write", "fl": pick_fl(rng, flavour), "key": kx(k1), "data": d1.hex(), "algo": algo},
+                {"op": "write", "fl": pick_fl(rng, flavour), "key": kx(k2), "data": d2.hex(), "algo": algo}]
+        sri1 = hashes.sri(algo, d1)
+        def extr(kind, by, to, fl):
+            op = {"op": kind, "fl": fl, "by": by, "checked": True, "to": to}
+            if by == "key": op["key"] = kx(k1)
+            else: op["sri"] = sri1
+            return op
+        # first retrievals (all succeed); copies only, so that no destination shares the inode that is going to rot
+        firsts = rng.sample([("copy", "key", "sync"), ("copy", "hash", "sync"), ("copy", "key", pick_fl(rng, flavour)), ("copy", "hash", pick_fl(rng, flavour))], rng.randrange(1, 4))
+        for i, (kind, by, fl) in enumerate(firsts):
+            prog.append(extr(kind, by, f"first{i}", fl))
+        prog.append({"op": "read", "fl": pick_fl(rng, flavour), "key": kx(k1)})
+        if rng.random() < 0.5:
+            b = bytearray(d1); p = rng.randrange(0, ln); b[p] ^= 1 << rng.randrange(0, 8); new = bytes(b)
+        else:
+            new = d2
+        prog.append({"op": "damage", "kind": "rot", "loc": ref.loc_c(ref.content_rel(sri1)), "data": new.hex()})
+        j = 0
+        for kind in ("copy", "hard_link", "reflink"):
+            for by in ("key", "hash"):
+                for fl in FLS[flavour]:
+                    if fl == "async" and kind == "hard_link" and by == "hash":
+                        continue
+                    j += 1
+                    prog.append(extr(kind, by, f"again{j}", fl))
+        prog += [{"op": "read", "fl": fl, "key": kx(k1)} for fl in FLS[flavour]]
+        prog += [{"op": "read_hash", "fl": fl, "sri": sri1} for fl in FLS[flavour]]
+        prog += [{"op": "ropen", "fl": pick_fl(rng, flavour), "r": 1, "key": kx(k1)}, {"op": "rall", "r": 1}, {"op": "rcheck", "r": 1}]
+        yield prog
